@@ -78,6 +78,35 @@ def spec_for(i, pt, mat, root, url_host):
     return flowcheck.prepare(sp)
 
 
+def include_specs(mat, root):
+    """[global] root_certificates set in the main file and again in included files: the last file that sets the option decides (as for every
+    other global option), so the list in force is one file's list.  Each run is the grid point conf = {global}; holder = global iff the list in
+    force holds the root that signs the server."""
+    from daemon import toml_dumps
+    d = os.path.join(root, "inc")
+    os.makedirs(d, exist_ok=True)
+    good, decoy, decoy2 = (os.path.join(d, n) for n in ("good.pem", "decoy.pem", "decoy2.pem"))
+    open(good, "w").write(mat["good_root_pem"])
+    open(decoy, "w").write(mat["decoy0"])
+    open(decoy2, "w").write(mat["decoy1"])
+    # (what the main file, conf.d/10 and conf.d/20 set; None = not set there)
+    combos = [([good], [decoy], None), ([decoy], [good], None), ([good], None, [decoy]), ([good], [decoy], [decoy2]), ([decoy], [decoy2], [good]),
+              (None, [good], [decoy]), (None, [decoy], [good])]
+    specs = []
+    for i, (m, a, b) in enumerate(combos):
+        in_force = [x for x in (m, a, b) if x is not None][-1]
+        files = {"conf.d/10-site.toml": toml_dumps({"global": {"root_certificates": a}}) if a else "# nothing here\n",
+                 "conf.d/20-host.toml": toml_dumps({"global": {"root_certificates": b}}) if b else "# nothing here\n"}
+        host = "localhost" if i % 2 == 0 else "127.0.0.1"
+        pt = {"conf": ["global"], "holder": "global" if good in in_force else "none", "server": "trusted", "badsrc": "cli", "filestate": "ok"}
+        specs.append(flowcheck.prepare(dict(tag="C18/i%03d" % i, certs=[simple_cert("inc%d" % i)], endpoints={"A": {"ca": {"tls": mat["trusted"], "host": host}}},
+                                            global_opts={"root_certificates": m} if m else {}, include=["conf.d/*.toml"], extra_files=files,
+                                            steps=[("call", lambda s: os.makedirs(os.path.join(s.world.root, "conf.d"), exist_ok=True)), ("run", {"attempts": 1})],
+                                            meta={"family": "global list overridden by included files", "pt": pt, "url_host": host,
+                                                  "set_in": {"main": bool(m), "10-site": bool(a), "20-host": bool(b)}})))
+    return specs
+
+
 def pair_specs(mat, root):
     """Two endpoints in ONE daemon, each with its own endpoint-level root: trust must not leak from one endpoint to the other.
     Each endpoint is a point of the specification's grid of its own (conf = {endpoint})."""
@@ -121,7 +150,7 @@ def run(ctx):
     mat = material(root)
     run_pts = pts if ctx.tier == "thorough" else [p for i, p in enumerate(pts) if (i + ctx.seed) % 3 == 0 or (p["server"] == "trusted" and p["holder"] != "none" and p["filestate"] == "ok")]
     specs = [spec_for(i, pt, mat, root, "localhost" if i % 2 == 0 else "127.0.0.1") for i, pt in enumerate(run_pts)]
-    results = flows.run_many(specs, workers=12)
+    results = flows.run_many(specs + include_specs(mat, root), workers=12)
     presults = flows.run_many(pair_specs(mat, root), workers=8)
     lines = []
     owners = []
@@ -161,6 +190,6 @@ def run(ctx):
            "tls_handshakes_refused_by_the_daemon": sum(e["handshakes_failed"] for e in lines), "exhaustive": ctx.tier == "thorough",
            "rule": "TLC enumerates configured sources (8 subsets of --root-cert / endpoint / global) x which source holds the needed root x server certificate "
                    "(trusted chain, untrusted chain, other host name, expired) x one configured file unreadable or malformed; each point is run against a TLS-wrapped "
-                   "mock CA with private roots (URL host alternately localhost and 127.0.0.1); requests that reach the CA and issuance are judged by Trust.tla; plus daemons with two endpoints that have different endpoint-level roots (right, crossed, missing): each endpoint is judged as a grid point of its own, so trust must not leak between endpoints of one process"}
+                   "mock CA with private roots (URL host alternately localhost and 127.0.0.1); requests that reach the CA and issuance are judged by Trust.tla; plus the global list set in the main file and overridden by included files (7 arrangements: the last file that sets it decides); plus daemons with two endpoints that have different endpoint-level roots (right, crossed, missing): each endpoint is judged as a grid point of its own, so trust must not leak between endpoints of one process"}
     return {"coverage": cov, "assumptions": ["the system trust store does not contain the harness's private roots",
                                             "a request 'reaches the server' when the mock CA logs a decrypted HTTP request after a completed handshake"]}
